@@ -612,8 +612,8 @@ def main():
             return 1
         return 0
     tier = 0 if args.tier == "quick" else 1
-    total = args.runs or (1600 if tier == 0 else 40000)
-    total_real = 96 if tier == 0 else 1600
+    total = args.runs or (1600 if tier == 0 else 10000)   # per round; the thorough tier repeats rounds until its time box is used up
+    total_real = 96 if tier == 0 else 400
     budget = args.budget or (900 if tier else 0)
     base = args.seed * 1000000
     records = []
